@@ -131,6 +131,23 @@ def step_coq(ctx, targets, theorems):
     return ok_all
 
 
+def step_coqchk(ctx, pid):
+    """thorough tier: re-check the compiled property module and everything it depends on with the independent checker coqchk,
+    and read its context summary (axioms, type-in-type, unsafe fixpoints, assumed positivity)"""
+    rc, out = sh('timeout 1500 coqchk -silent -o -Q theories Peppi Peppi.Properties.%s' % pid, cwd=COQ, timeout=1600)
+    ctx.obligations += 1
+    summary = out[out.find('CONTEXT SUMMARY'):] if 'CONTEXT SUMMARY' in out else out[-600:]
+    clean = (rc == 0 and all(('* %s: <none>' % k) in summary for k in
+                             ('Axioms', 'Constants/Inductives relying on type-in-type', 'Constants/Inductives relying on unsafe (co)fixpoints',
+                              'Inductives whose positivity is assumed')))
+    ctx.note('coqchk: %s' % ('modules re-checked; axioms <none>; no type-in-type / unsafe fixpoints / assumed positivity' if clean else summary[-400:].replace('\n', ' ')))
+    if not clean:
+        ctx.broken.append('coqchk: independent re-check of Peppi.Properties.%s failed or reports assumptions: %s' % (pid, summary[-400:].replace('\n', ' ')))
+        return False
+    ctx.discharged += 1
+    return True
+
+
 def step_audit(ctx):
     bad = []
     for root, _, files in os.walk(os.path.join(COQ, 'theories')):
